@@ -555,7 +555,13 @@ def desugar_function(fn):
                     isinstance(v0.args[0], ast.GeneratorExp) and (
                         isinstance(s, ast.Return) or (
                             len(s.targets) == 1 and
-                            isinstance(s.targets[0], ast.Name))):
+                            isinstance(s.targets[0], ast.Name) and
+                            # (a name read once is a temporary that goes back
+                            # into the statement that uses it first)
+                            sum(1 for n in ast.walk(fn)
+                                if isinstance(n, ast.Name) and
+                                n.id == s.targets[0].id and
+                                isinstance(n.ctx, ast.Load)) != 1)):
                 def mkc(val, s=s):
                     c = ast.Constant(value=val)
                     if isinstance(s, ast.Return):
